@@ -5,8 +5,10 @@ import (
 	"fmt"
 	"hash/fnv"
 	"reflect"
+	"runtime"
 	"strconv"
 	"strings"
+	"sync/atomic"
 	"testing"
 	"testing/synctest"
 	"time"
@@ -20,6 +22,7 @@ import (
 	"github.com/verily-src/fhirpath-go/fhirpath/patch"
 	"github.com/verily-src/fhirpath-go/fhirpath/system"
 	"github.com/verily-src/fhirpath-go/internal/fhir"
+	"github.com/verily-src/fhirpath-go/internal/verifyield"
 	"google.golang.org/protobuf/proto"
 	"google.golang.org/protobuf/reflect/protoreflect"
 	"google.golang.org/protobuf/reflect/protoregistry"
@@ -45,6 +48,7 @@ type opCtx struct {
 	yieldsIn  map[string]int
 	obs       []cbObs // raw observations of the C17 callbacks
 	lockDepth int     // locks held by library code of this operation (instrumented build)
+	async     bool    // the library ran part of this operation in goroutines of its own
 }
 
 func newOpCtx(failAt int) *opCtx {
@@ -69,6 +73,14 @@ type runCtx struct {
 
 	rootOp  *opCtx   // operation context while the root executes an operation
 	taskOps []*opCtx // operation context of each client task (indexed by task id)
+
+	// goroutines the simulator did not start (the library's own, when it is not instrumented)
+	baseG    int   // goroutines alive when the run began
+	rootGoid int64 // the goroutine that drives the run
+	foreign  atomic.Int32
+
+	abandoned   int    // library goroutines still alive at the end of a scheduler's run
+	helperPanic string // first panic raised in a library goroutine
 }
 
 // runBubble executes f inside a synctest bubble, in a sub-test of its own: when the race
@@ -95,6 +107,9 @@ func yieldHook(site int) {
 	if oc.lockDepth > 0 {
 		return // never park a task that holds a lock
 	}
+	if !r.c.Knobs.GYields {
+		return
+	}
 	r.sc.yield(ypGlobal, -1000-site)
 }
 
@@ -113,7 +128,45 @@ func lockHook(delta int) {
 var theRun *runCtx
 
 //go:norace
-func setRun(r *runCtx) { theRun = r }
+func setRun(r *runCtx) {
+	if r != nil {
+		r.baseG, r.rootGoid = runtime.NumGoroutine(), curGoid()
+		abandonedInRun = 0
+	}
+	theRun = r
+}
+
+// foreignCaller reports whether the calling goroutine is one the simulator does not drive: a
+// goroutine the library started itself in a build where such goroutines are not taken over.
+// Its node entries pass straight through (no trace, no injected error, no yield point).
+//
+//go:norace
+func (r *runCtx) foreignCaller() bool {
+	exp := r.baseG
+	sc := r.sc
+	if sc != nil {
+		exp += int(sc.liveG.Load())
+	}
+	n := runtime.NumGoroutine()
+	if n == exp {
+		return false
+	}
+	g := curGoid()
+	legit := g == r.rootGoid
+	if !legit && sc != nil {
+		if t := sc.cur; t != nil && t.goid == g {
+			legit = true
+		}
+	}
+	if legit {
+		if n < exp {
+			r.baseG -= exp - n // a goroutine from before the run has gone
+		}
+		return false
+	}
+	r.foreign.Add(1)
+	return true
+}
 
 // curOp returns the operation context of whoever is running right now.
 //
@@ -123,8 +176,14 @@ func curOp() (*runCtx, *opCtx) {
 	if r == nil {
 		return nil, nil
 	}
+	if r.foreignCaller() {
+		return nil, nil
+	}
 	if r.sc != nil {
 		if t := r.sc.current(); t != nil {
+			if t.id >= len(r.taskOps) {
+				return r, nil
+			}
 			return r, r.taskOps[t.id]
 		}
 	}
@@ -132,7 +191,143 @@ func curOp() (*runCtx, *opCtx) {
 }
 
 //go:norace
-func (r *runCtx) setTaskOp(id int, o *opCtx) { r.taskOps[id] = o }
+func (r *runCtx) setTaskOp(id int, o *opCtx) {
+	for id >= len(r.taskOps) {
+		r.taskOps = append(r.taskOps, nil)
+	}
+	r.taskOps[id] = o
+}
+
+// adoptHelper gives a goroutine the library started the operation context of the task that
+// started it.
+//
+//go:norace
+func (r *runCtx) adoptHelper(parent, child *task) {
+	var oc *opCtx
+	if parent.id < len(r.taskOps) {
+		oc = r.taskOps[parent.id]
+	}
+	if oc != nil {
+		oc.async = true
+	}
+	r.setTaskOp(child.id, oc)
+}
+
+// Hooks of the instrumented build for goroutines and blocking operations of the library.
+func goHook(fn func()) bool {
+	r := theRunNoRace()
+	if r == nil || r.sc == nil {
+		return false
+	}
+	return r.sc.spawnHelper(fn)
+}
+
+func blockHook() any {
+	r := theRunNoRace()
+	if r == nil || r.sc == nil {
+		return nil
+	}
+	tok := r.sc.blocking()
+	if tok == nil {
+		return nil
+	}
+	return asyncTok{r.sc, tok}
+}
+
+type asyncTok struct {
+	sc  *sched
+	tok any
+}
+
+func unblockHook(tok any) {
+	if a, ok := tok.(asyncTok); ok {
+		a.sc.unblocked(a.tok)
+	}
+}
+
+func wrapHook(fn func()) func() {
+	r := theRunNoRace()
+	if r == nil || r.sc == nil {
+		return fn
+	}
+	return r.sc.wrapTimerFunc(fn)
+}
+
+//go:norace
+func theRunNoRace() *runCtx { return theRun }
+
+// solo runs f as the only client of a scheduler of its own that follows the reference
+// schedule: no switch at any yield point, and when the library blocks in goroutines of its own
+// the lowest-numbered runnable one continues. In builds where the library's goroutines are not
+// taken over it simply calls f.
+func (r *runCtx) solo(oc *opCtx, f func()) error {
+	if !asyncBuild() {
+		r.setRootOp(oc)
+		f()
+		r.setRootOp(nil)
+		return nil
+	}
+	sc := newSched(nil, 0, 1<<30)
+	sc.canonical, sc.async = true, true
+	sc.newTaskOp = r.adoptHelper
+	savedSc, savedOps := r.sc, r.taskOps
+	r.sc, r.taskOps = sc, []*opCtx{oc}
+	defer func() { r.sc, r.taskOps = savedSc, savedOps }()
+	var pv any
+	sc.spawn(func(*task) {
+		defer func() { pv = recover() }()
+		f()
+	})
+	err := sc.run(nil)
+	r.noteAsync(sc)
+	if pv != nil {
+		panic(pv)
+	}
+	return err
+}
+
+// noteAsync accumulates what a scheduler saw of the library's own goroutines.
+func (r *runCtx) noteAsync(sc *sched) {
+	if sc.helpers == 0 && sc.extBlocks == 0 {
+		return
+	}
+	st := r.stats
+	st.Faults = addN(st.Faults, "library-goroutine-scheduled", sc.helpers)
+	st.Faults = addN(st.Faults, "blocking-operation-switch", sc.extBlocks)
+	st.Faults = addN(st.Faults, "idle-clock-advance", sc.idleJumps)
+	r.abandoned += sc.abandoned
+	abandonedInRun += sc.abandoned
+	if sc.helperPanic != "" && r.helperPanic == "" {
+		r.helperPanic = sc.helperPanic
+	}
+}
+
+func asyncBuild() bool { return verifyield.Instrumented }
+
+// abandonedInRun counts the goroutines the library started during the current run and that were
+// still alive when their scheduler stopped driving them (they stay parked for good).
+var abandonedInRun int
+
+// attach / detach put a scheduler in charge of the run's client tasks.
+func (r *runCtx) attach(sc *sched) {
+	sc.async, sc.newTaskOp = asyncBuild(), r.adoptHelper
+	r.sc = sc
+}
+
+func (r *runCtx) detach(sc *sched) {
+	r.sc = nil
+	r.noteAsync(sc)
+}
+
+// bubblePanic turns a panic that escaped a bubble into an infrastructure message - except the
+// one the bubble raises when goroutines the library never ended are left parked in it.
+func bubblePanic(p any, st *Stats) string {
+	if abandonedInRun > 0 && strings.Contains(fmt.Sprint(p), "blocked goroutines remain") {
+		st.probeN("library-goroutines-outlived-the-run", abandonedInRun)
+		return ""
+	}
+	return fmt.Sprintf("bubble panic: %v", p)
+}
 
 //go:norace
 func (r *runCtx) setRootOp(o *opCtx) { r.rootOp = o }
@@ -164,7 +359,7 @@ func (n *simNode) Evaluate(ctx *expr.Context, in system.Collection) (system.Coll
 		oc.failFired = true
 		return nil, oc.failErr
 	}
-	if r.sc != nil {
+	if r.sc != nil && oc.lockDepth == 0 { // never park a task that holds a library lock
 		r.sc.yield(ypNode, n.id)
 	}
 	out, err := n.inner.Evaluate(ctx, in)
@@ -302,8 +497,8 @@ func callback(key string) (any, error) {
 		}, nil
 	case "yield":
 		return func(in system.Collection) (system.Collection, error) {
-			r, _ := cbEnter("yield")
-			if r != nil && r.sc != nil {
+			r, oc := cbEnter("yield")
+			if r != nil && r.sc != nil && (oc == nil || oc.lockDepth == 0) {
 				r.sc.yield(ypCallback, -2)
 			}
 			return in, nil
@@ -323,7 +518,7 @@ func callback(key string) (any, error) {
 			if time.Now().Year() < 2150 {
 				time.Sleep(time.Duration(ms) * time.Millisecond)
 			}
-			if r != nil && r.sc != nil {
+			if r != nil && r.sc != nil && (oc == nil || oc.lockDepth == 0) {
 				r.sc.yield(ypCallback, -2)
 			}
 			return in, nil
@@ -699,6 +894,9 @@ type opResult struct {
 	NowSet  bool
 	HasTime bool // the op carried its own OverrideTime
 	NowBad  bool // ctx.Now was not one value across the node entries of this op
+	Async   bool // the library ran part of the operation in goroutines of its own
+
+	probeList []string
 	Probes  string
 	Fired   bool   // node-error fault fired
 	After   string // patch: digest of the private resource after the operation
@@ -734,8 +932,10 @@ func execOp(op *Op, oc *opCtx, p *compiled, in0 *inputs, entryOverride *time.Tim
 			res.Outcome = "panic(" + maskPtr(fmt.Sprint(pv)) + ")"
 		}
 		res.Trace, res.Nodes, res.NowBad, res.Fired, res.Ticks = oc.trace, oc.nodes, oc.nowDiffer, oc.failFired, oc.ticks
+		res.Async = oc.async
 		res.Exit, res.CtxNow, res.NowSet = time.Now().UTC(), oc.now, oc.nowSet
 		res.Probes = strings.Join(oc.probes, ";")
+		res.probeList = oc.probes
 	}()
 	if !p.ok() {
 		res.Outcome = "uncompiled"
